@@ -22,7 +22,7 @@ func init() {
 				Rule: fmt.Sprintf("all histories of depth <= %d (depth %d over a reduced alphabet in the thorough tier) on one connection of the full reference server (real loader, Start handler, ASCII/PAP handlers, bcrypt, stringy, local accounter) over an alphabet of ~85 abstract packets: "+
 					"ASCII START (user empty/known/unknown), PAP START (good/bad/empty password), unrouted STARTs, CONTINUE (user, password, junk, empty, abort), command and session authorization (permitted/denied/other user), accounting (start/stop/watchdog/invalid flags), "+
 					"undecodable bodies per type, trailing garbage, each on session A or B; sequence choices {expected, same, lower, even, jump, 255} on three kinds; rejected forms (invalid version, type, sequence 0, length 65537, wrong key). "+
-					"Configurations: keychain-backed user with a working and with a failing keychain. Oracle per request, from the connection-loop model: accepted => exactly one handler invocation, at most one Reply call and exactly one packet "+
+					"Configurations: keychain-backed user with a working and with a failing keychain; and all histories of depth <= 2 over ~110 packets aimed at the odd user/authenticator/accounter/policy shapes of the C14 configurations under three keychain behaviours. Oracle per request, from the connection-loop model: accepted => exactly one handler invocation and exactly one packet "+
 					"(none iff numbered 255) before the next read, connection stays open; rejected => no handler invocation, at most one packet, connection closed. states = distinct loop-model states, transitions = packets delivered", d, d),
 				Assumptions: []string{"accept/reject is decided by mc/ref/connmodel.go; the only handler-dependent input of the model is whether the invoked handler registered a continuation (observed through a wrapping Response)",
 					"for bodies in the indeterminate key-mismatch class either complete behaviour is accepted (C19 owns that boundary)"}}
@@ -34,6 +34,7 @@ func init() {
 }
 
 type rCase struct {
+	Env    string `json:"env,omitempty"` // "" main configuration, "odd" the C14 odd-shapes configuration
 	KC     string `json:"keychain_mode"`
 	Scope  string `json:"scope"`
 	Hist   []rPkt `json:"history"`
@@ -131,10 +132,7 @@ func c07Oracle(s stepInfo) (kind, msg string) {
 	if len(s.Calls) != 1 {
 		return "handler-count", fmt.Sprintf("accepted request caused %d handler invocations", len(s.Calls))
 	}
-	if nReplies > 1 {
-		// (a handler may legitimately answer through Response.Write instead of Reply; only a second Reply is wrong)
-		return fmt.Sprintf("reply-calls-%d", nReplies), fmt.Sprintf("the handler path called Reply %d times for one request", nReplies)
-	}
+	_ = nReplies // (the number of Reply calls is not part of the oracle: a failed Reply may be followed by an error reply; what counts is the wire)
 	want := 1
 	if s.H.Seq == 255 {
 		want = 0
@@ -176,7 +174,7 @@ func rExploreOpt(c *Ctx, e *rEnv, alpha []rPkt, depth int, keepLog bool, scope s
 		for d := 0; d < depth && rc.M.Open; d++ {
 			p := alpha[ch.Choose(len(alpha))]
 			hist = append(hist, p)
-			c.Cur(rCase{KC: e.KCMode, Scope: scope, Hist: hist, Tokens: tokens})
+			c.Cur(rCase{Env: e.Name, KC: e.KCMode, Scope: scope, Hist: hist, Tokens: tokens})
 			info, err := rw.deliverR(rc, d, p)
 			if err != nil {
 				c.Abort("hang", fmt.Sprintf("%v after %s", err, rHistString(hist)), rCase{KC: e.KCMode, Scope: scope, Hist: hist})
@@ -184,7 +182,7 @@ func rExploreOpt(c *Ctx, e *rEnv, alpha []rPkt, depth int, keepLog bool, scope s
 			c.R.Trans(1)
 			c.R.State(evid.Hash(rc.M.Key()))
 			if kind, msg := onStep(hist, info); msg != "" {
-				c.R.ViolateMin(kind, fmt.Sprintf("history %s (keychain=%q): step %d: %s", rHistString(hist), e.KCMode, d, msg), rCase{KC: e.KCMode, Scope: scope, Hist: append([]rPkt{}, hist...), Tokens: tokens}, len(hist))
+				c.R.ViolateMin(kind, fmt.Sprintf("history %s (keychain=%q): step %d: %s", rHistString(hist), e.KCMode, d, msg), rCase{Env: e.Name, KC: e.KCMode, Scope: scope, Hist: append([]rPkt{}, hist...), Tokens: tokens}, len(hist))
 				ok = false
 				break
 			}
@@ -218,6 +216,19 @@ func c07Run(c *Ctx) {
 	rExplore(c, eOK, c07Alphabet(eOK, false), depth, false, "s1", step, nil)
 	eErr := newREnv(defaultSecrets(), "err")
 	rExplore(c, eErr, c07Alphabet(eErr, true), depth, false, "s1", step, nil)
+	// every AAA path of the odd user/authenticator/accounter/policy shapes (the C14 configurations), depth 2
+	for _, mode := range []string{"ok", "err", "nil"} {
+		eOdd := newC14Env(mode)
+		var alpha []rPkt
+		for _, k := range c14Kinds(eOdd) {
+			alpha = append(alpha, k)
+		}
+		alpha = append(alpha, rPkt{Kind: "cont", Msg: "noopts"}, rPkt{Kind: "cont", Msg: "emptyhash"}, rPkt{Kind: "cont", Msg: "keyonly"}, rPkt{Kind: "ascii", User: "", Sid: 1})
+		rExplore(c, eOdd, alpha, 2, false, "s1", step, nil)
+		if mode == "ok" {
+			rExplore(c, eOdd, alpha, 1, false, "s3", step, nil)
+		}
+	}
 	if !c.Quick {
 		rExplore(c, eOK, c07Alphabet(eOK, true), 4, false, "s1", step, nil)
 	}
@@ -231,6 +242,10 @@ func rReplay(c *Ctx, raw json.RawMessage, keepLog bool, onStep func(hist []rPkt,
 	sec := defaultSecrets()
 	if cs.Tokens {
 		sec = tokenSecrets(c.Seed)
+	}
+	if cs.Env == "odd" {
+		rReplayEnv(c, newC14Env(cs.KC), cs, keepLog, onStep)
+		return
 	}
 	rReplayEnv(c, newREnv(sec, cs.KC), cs, keepLog, onStep)
 }
